@@ -117,6 +117,8 @@ def no_panic_oracle(case, trace):
             yield "a TestCase that has been iterated before does not behave like a freshly bound one (same script / driver of another layout / after an edit of the public signals): %s" % r[:300]
         if t == "RENAME" and not r.startswith("same"):
             yield "after an input and an output of a bound test were renamed (public field), a program that reads no output runs differently: %s" % r[:300]
+        if t == "VLIST" and r.startswith("DIFFERENT"):
+            yield "a test whose declared signals come with the signal list (taken from another bound test) instead of from declare lines runs differently: %s" % r[:300]
         if t == "FREERUN" and not r.startswith("same"):
             yield "with the generator seeded by the system, resetRandom does not replay the run's own draws: %s" % r[:300]
         if t == "APICHK" and not r.startswith("ok"):
@@ -3712,3 +3714,121 @@ def c19_multi_cases(seed, tier):
 
 _extend("C19", c19_multi_cases, "plus 2-3 iterators over one test with expanding rows, advanced out of step (each reports the lines of the solo run)")
 PROPS["C19"]["pair_oracles"] = list(PROPS["C19"].get("pair_oracles", [])) + [c15_pair_oracle]
+
+
+# ------------------------------------------------------------------ round 13
+def round13_shapes(prefix):
+    """fixed shapes of round 13: names longer than 16 bytes that share a long prefix (and a length); an output read by a
+    declared signal going 0 -> Z -> 0 -> X between consecutive checked rows; outputs ahead of inputs in the signal list
+    with undriven inputs behind them; a Z next to an X in one row; a declared column right of an X input; clocks on inputs
+    wider than one bit; loops whose rows fit their signal at first and overflow later; random on both sides of an output
+    column; random in a top-level loop bound reached through rows only"""
+    cases = []
+    k = 0
+    def add(src, sigs, layout, table, kinds=("run",), **kw):
+        nonlocal k
+        for kind in kinds:
+            c = {"id": "%s-r13-%d-%s" % (prefix, k, kind), "kind": kind, "src": src, "sigs": [dict(s_) for s_ in sigs], "layout": layout if kind == "run" else [], "table": table if kind == "run" else [],
+                 "echo": 0, "wdefault": k % 2, "faults": [], "max": 80, "seed": 2 + 5 * k, "cont": 1}
+            c.update(kw)
+            cases.append(c)
+        k += 1
+    AQ = [{"name": "A", "typ": "I", "bits": 8, "default": "0"}, {"name": "Q", "typ": "O", "bits": 8, "default": "-"}]
+    add("A Q\nlet counter_for_phase_one = 1;\nlet counter_for_phase_two = 2;\n(counter_for_phase_one) X\n(counter_for_phase_two) X\nlet counter_for_phase_one = 5;\n(counter_for_phase_one + counter_for_phase_two) X\n"
+        "loop(a_very_long_loop_counter_a,2)\nloop(a_very_long_loop_counter_b,2)\n(a_very_long_loop_counter_a * 2 + a_very_long_loop_counter_b) X\nend loop\nend loop\n", AQ, [1], [["1"]])
+    LQ = [{"name": "A", "typ": "I", "bits": 8, "default": "0"}, {"name": "output_of_the_first_stage_1", "typ": "O", "bits": 8, "default": "-"}, {"name": "output_of_the_first_stage_2", "typ": "O", "bits": 8, "default": "-"}]
+    add("A output_of_the_first_stage_1 output_of_the_first_stage_2\n(output_of_the_first_stage_1) X X\n(output_of_the_first_stage_2) 1 2\n", LQ, [1, 2], [["1", "2"], ["3", "4"]], kinds=("run", "bind"))
+    add("A Q V\ndeclare V = Q + 1;\n1 X X\n2 X X\n3 X X\n4 X X\n5 X X\n", AQ, [1], [["0"], ["Z"], ["0"], ["X"], ["0"], ["0"]])
+    add("A Q V W\ndeclare V = !Q;\ndeclare W = Q * 0;\n1 0 X X\n1 0 1 0\n1 X 1 0\n1 0 1 0\n", AQ, [1], [["0"], ["0"], ["X"], ["Z"], ["0"]])
+    OI = [{"name": "Q", "typ": "O", "bits": 4, "default": "-"}, {"name": "A", "typ": "I", "bits": 4, "default": "3"}, {"name": "R", "typ": "O", "bits": 4, "default": "-"}, {"name": "B", "typ": "I", "bits": 4, "default": "5"},
+          {"name": "T", "typ": "B", "bits": 4, "default": "Z"}]
+    add("A Q\n1 X\n2 X\n", OI, [0, 2], [["1", "2"]], kinds=("run", "static", "bind"))
+    add("R Q\n(R) (Q)\n1 2\n", OI, [2, 0], [["1", "2"], ["1", "2"]], kinds=("run", "bind"))
+    add("Q B R\nX 1 X\nX C X\nX X X\n", OI, [0, 2, 4], [["1", "2", "3"]], kinds=("run", "static"))
+    ZX = [{"name": "A", "typ": "I", "bits": 1, "default": "0"}, {"name": "T", "typ": "B", "bits": 1, "default": "Z"}, {"name": "B", "typ": "I", "bits": 1, "default": "0"}, {"name": "Q", "typ": "O", "bits": 2, "default": "-"}]
+    add("A T B Q\n0 Z 0 X\nX Z 0 X\n0 Z X X\nZ X 0 1\nC Z X X\n0 0 0 X\n", ZX, [3, 1], [["1", "0"]], kinds=("run", "static"))
+    add("A B Q V\ndeclare V = 2;\nX 0 X X\n0 X X X\nX X 1 X\n", ZX, [3], [["1"]], kinds=("run", "static"))
+    add("V A B Q\ndeclare V = 2;\nX X 0 X\nX 0 X 2\n", ZX, [3], [["1"]], kinds=("run", "static"))
+    WC = [{"name": "CK", "typ": "I", "bits": 4, "default": "0"}, {"name": "D", "typ": "I", "bits": 64, "default": "0"}, {"name": "Q", "typ": "O", "bits": 4, "default": "-"}]
+    add("CK D Q\nC 1 X\nC C X\n0 C 1\n", WC, [2], [["1"]], kinds=("run", "static"))
+    add("CK Q\nloop(i,20)\n(i) (i+1)\nend loop\nrepeat(4) 0 (1-n)\nloop(i,3)\n(0-1) X\n(0-1) X\nend loop\n255 X\n255 X\n(255) X\n", WC, [2], [["1"]], kinds=("run", "static"))
+    RQ = [{"name": "A", "typ": "I", "bits": 32, "default": "0"}, {"name": "Q", "typ": "O", "bits": 32, "default": "-"}, {"name": "B", "typ": "I", "bits": 32, "default": "0"}]
+    add("A Q B\n(random(1000000)) (random(1000000)) (random(1000000))\nresetRandom;\n(random(1000000)) (random(1000000)) (random(1000000))\n", RQ, [1], [["1"]], kinds=("run", "static"))
+    add("Q A B\n(random(1000000)) (random(1000000)) (random(1000000))\nresetRandom;\n(random(1000000)) X (random(1000000))\n", RQ, [1], [["1"]], kinds=("run", "static"))
+    add("A Q B\n1 X 1\nloop(i, random(4) + 1)\n(i) X (random(100))\nend loop\n2 X 2\nloop(j, random(3) + 1)\n(j) X 0\nend loop\nresetRandom;\n3 X (random(100))\nrepeat((random(8)&3)+1) 4 X 4\n", RQ, [1], [["1"]], kinds=("run", "static"))
+    return cases
+
+
+for _p in ("C01", "C04", "C05", "C06", "C07", "C10", "C14", "C17", "C18", "C02", "C13"):
+    _extend(_p, (lambda pref: (lambda seed, tier: round13_shapes(pref)))(_p.lower()),
+            "plus fixed shapes of round 13 (long names with a common prefix; a read output going 0 / Z / 0 / X between consecutive rows; outputs ahead of inputs in the list; Z beside X; a declared column right of an X input; clocks on wide inputs; rows that overflow their signal only in later passes; random on both sides of an output column and in top-level loop bounds)")
+
+
+def round13_parse_texts(seed, tier):
+    """a name declared twice where the second declaration is the last thing in the text, in every end layout (no semicolon,
+    no line break, neither, blanks, a comment); duplicated header names whose second occurrence is the last / first / only
+    other column; calls with too few arguments in every position; comments with non-ASCII text and Unicode line separators"""
+    cases = []
+    k = 0
+    def add(t):
+        nonlocal k
+        cases.append({"id": "r13-parse-%d" % k, "kind": "parse", "src": t})
+        k += 1
+    for first in ("declare v = Q;\n0 X\n", "declare v = 1;\n", "loop(i,1)\ndeclare v = i;\nend loop\n"):
+        for second in ("declare v = (Q + 1) * 2", "declare v = 2;", "declare v = 2", "declare v = 2 ", "declare v = 2 # c", "declare v = ite(1,", "declare v", "declare v =", "declare v = 2;;", "declare w = 2"):
+            for end in ("", "\n", " ", "\t\n", "\n\n"):
+                add("A Q\n" + first + second + end)
+    for hdr in ("A B A", "A A", "A B C A", "A B B", "A B C C", "A B C B", "Q A Q", "A_out A A_out", "A B\tA", "A B A ", "A B A\t#c", "a A", "A B C D E F G A", "A B C D E F G G"):
+        add(hdr + "\n" + " ".join("1" for _ in hdr.split("#")[0].split()) + "\n")
+    for call in ("ite(1,2)", "ite(1)", "ite()", "signExt(3)", "signExt()", "random()", "ite(1,2,3,4)", "signExt(1,2,3)", "random(1,2)"):
+        for place in ("let a = %s;\n", "(%s) 1\n", "loop(i,%s)\n1 1\nend loop\n", "while(%s)\nend while\n", "bits(2,%s)\n", "repeat(%s) 1 1\n", "declare v = %s;\n", "let a = 1 + -%s;\n", "let a = ite(%s,1,2);\n"):
+            add("A B\n" + place % call)
+    for cm in ("# 3 µs → grün", "# next\u0085line", "# sep ", "# para # more", "#\u0085", "#   1 1", "# ff\x0c", "# é", "#→"):
+        add("A B\n" + cm + "\n1 1\n" + cm + "\n0 0 " + cm + "\n")
+        add("A B " + cm + "\n1 1\n")
+    return cases
+
+
+for _p in ("C09", "C12", "C10", "C20", "C19"):
+    _extend(_p, round13_parse_texts, "plus a redeclared name as the last statement in every end layout, duplicated header names in the last column, calls with too few arguments everywhere, comments with non-ASCII text and Unicode line separators")
+_add_dig("C06", 0xC06D, 40, 800, "plus .dig documents: a loaded test has an outputs / expected entry for every pin the file declares (signal list compared with the model's; load_test = parse + bind)")
+
+
+def many_bindings_cases(prefix):
+    """more than 65 535 bindings alive at once: 62 nested one-pass loops that each re-bind the same 1100 names; rows read
+    the innermost visible binding on the way in and after every twentieth `end loop` on the way out.  Too large for the
+    model's interpreter (skip_model): judged by many_bindings_oracle, which knows the values by construction"""
+    depth, names = 62, 1100
+    lines = ["A Q"]
+    for d in range(depth):
+        lines.append("loop(i%d,1)" % d)
+        for n in range(names):
+            lines.append("let v%d = %d;" % (n, d))
+    lines.append("(v0) X")
+    expect = [depth - 1]
+    for j in range(depth):
+        lines.append("end loop")
+        if j % 20 == 0 and j < depth - 1:
+            lines.append("(v0 + v%d) X" % (names - 1))
+            expect.append(2 * (depth - 2 - j))
+    sigs = [{"name": "A", "typ": "I", "bits": 64, "default": "0"}, {"name": "Q", "typ": "O", "bits": 8, "default": "-"}]
+    return [{"id": "%s-manybind" % prefix, "kind": "run", "src": "\n".join(lines) + "\n", "sigs": sigs, "layout": [1], "table": [["1"]], "echo": 0, "wdefault": 0, "faults": [], "max": 50, "seed": 2,
+             "cont": 1, "no_model": True, "skip_model": True, "expect_a": expect}]
+
+
+def many_bindings_oracle(case, trace):
+    if "expect_a" not in case or any(t == "HANG" for t, _ in trace):
+        return      # (cut off by the watchdog on a loaded machine: nothing is claimed)
+    got = []
+    for t, r in trace:
+        if t == "ROW":
+            m_ = re.search(r"\| A=(-?\d+)", r)
+            got.append(int(m_.group(1)) if m_ else None)
+    ended = any(t == "END" and r.startswith("none") for t, r in trace)
+    if got != case["expect_a"] or not ended:
+        yield "with more than 65 535 bindings alive the rows read %s (run ended: %s) instead of the innermost visible bindings %s" % (got, ended, case["expect_a"])
+
+
+for _p in ("C18", "C14", "C10"):
+    _extend(_p, (lambda pref: (lambda seed, tier: many_bindings_cases(pref)))(_p.lower()), "plus one test with 68 200 bindings alive at once (62 nested loops re-binding 1100 names), judged by construction")
+    PROPS[_p]["oracles"] = list(PROPS[_p]["oracles"]) + [many_bindings_oracle]
